@@ -340,9 +340,10 @@ impl EntryIoStream for ScriptedStream {
             ))),
             // every kind of I/O error, transient-looking ones included: a sink treats them all alike
             Outcome::Io => {
-                const KINDS: [io::ErrorKind; 8] = [
+                const KINDS: [io::ErrorKind; 12] = [
                     io::ErrorKind::Other, io::ErrorKind::Interrupted, io::ErrorKind::WouldBlock, io::ErrorKind::BrokenPipe,
                     io::ErrorKind::TimedOut, io::ErrorKind::WriteZero, io::ErrorKind::UnexpectedEof, io::ErrorKind::StorageFull,
+                    io::ErrorKind::InvalidInput, io::ErrorKind::InvalidData, io::ErrorKind::Unsupported, io::ErrorKind::OutOfMemory,
                 ];
                 let k = sh.io_errors.fetch_add(1, Ordering::Relaxed) as usize;
                 Err(IoStreamError::Io(io::Error::new(KINDS[k % KINDS.len()], "scripted io error")))
